@@ -112,6 +112,7 @@ func (repo *ReorgRepository) List(ctx context.Context) ([]*Reorg, error) {
 	result := make([]*Reorg, len(data))
 	for i, b := range data {
 		buf := bytes.NewBuffer(b)
+		result[i] = &Reorg{}
 		if err := result[i].Read(buf); err != nil {
 			return nil, err
 		}
